@@ -15,7 +15,7 @@ import pickle
 
 import numpy as np
 
-from .. import recorded
+from .. import env, recorded
 from ..harness import InjectedFault, InjectedInterrupt, Probe, pop_to_np, rm_tmp, tmpfile, to_np
 from ..targets import Target
 
@@ -40,7 +40,11 @@ CHUNK_TIMEOUT = 1500
 
 def cases(tier, seed):
     n = {"quick": 16, "thorough": 160}[tier]
-    return [{"seed": [seed, 11, k], "k": k} for k in range(n)]
+    out = [{"seed": [seed, 11, k], "k": k} for k in range(n)]
+    # the preconditioner that has trained state of its own: a real (tiny) flow refitted at every iteration
+    for j in range({"quick": 1, "thorough": 6}[tier]):
+        out.append({"kind": "flowprec", "seed": [seed, 111, j], "k": j})
+    return out
 
 
 def gen_cfg(g, k):
@@ -99,6 +103,92 @@ def gen_cfg(g, k):
     return cfg
 
 
+def flowprec_case(case):
+    """preconditioning="flow" with a real zuko flow: crash, resume, compare with the uninterrupted run."""
+    from collections import Counter
+
+    from aspire import Aspire
+    from aspire.samples import Samples
+
+    counters = Counter({k: 0 for k in REQUIRED_COUNTERS})
+    viol = []
+    g = np.random.default_rng(case["seed"])
+    from ..targets import Coord
+
+    d = int(g.integers(1, 3))
+    t = Target([Coord("box", -5.0, 5.0, float(g.uniform(-1, 1)), float(g.uniform(0.6, 1.2))) for _ in range(d)])
+    xp = env.xp_of("torch")
+    xtrain = np.clip(np.column_stack([g.normal(c.mu, 1.5 * c.s, 200) for c in t.coords]), -4.9, 4.9)
+    fseed = int(g.integers(1, 1000))
+    b2u = bool(g.random() < 0.5)
+
+    def build(probe):
+        a = Aspire(log_likelihood=probe.log_likelihood, log_prior=probe.log_prior, dims=d, parameters=list(t.parameters), prior_bounds=t.prior_bounds,
+                   flow_backend="zuko", xp=xp, dtype="float64", bounded_to_unbounded=b2u, hidden_features=[8, 8], transforms=2, seed=fseed)
+        a.fit(Samples(xp.asarray(xtrain), xp=xp, parameters=list(t.parameters)), n_epochs=2, batch_size=64)
+        return a
+
+    cfg = {"target": t.describe(), "xp": "torch", "dtype": "float64", "sampler": "smc", "n": int(g.integers(16, 28)), "kernel_steps": 1,
+           "opts": {"adaptive": False, "n_steps": int(g.integers(3, 5))}, "rng_seed": int(g.integers(10**6)), "ckpt_every": 1,
+           "precond": {"preconditioning": "flow", "kwargs": {"fit_kwargs": {"n_epochs": 2, "batch_size": 16}}}}
+    if g.random() < 0.5:
+        cfg["opts"]["n_final_samples"] = cfg["n"] + 5
+    where = f"flow preconditioning (zuko) d={d} b2u={b2u} n={cfg['n']} opts={cfg['opts']}"
+    counters["configurations"] += 1
+    p0 = Probe(t)
+    R = recorded.record(cfg, aspire=build(p0), probe=p0)
+    if R.exc is not None:
+        raise R.exc
+    n_calls = R.probe.n_like_calls
+    T = len(R.hist["beta"])
+    nontrivial = []
+    seen_it = set()
+    for k in sorted({int(n_calls * f) for f in (0.35, 0.55, 0.75, 0.95)}):
+        counters["crash_points"] += 1
+        path = tmpfile("ckf.h5")
+        try:
+            pf = Probe(t, fault_like_at=k)
+            F = recorded.record(cfg, aspire=build(pf), probe=pf, with_callback=False, ckpt_path=path)
+            if not isinstance(F.exc, (InjectedFault, InjectedInterrupt)):
+                if F.exc is not None:
+                    raise F.exc
+                continue
+            b = load_file_payload(path)
+            if b is None:
+                counters["crash_before_first_checkpoint"] += 1
+                continue
+            counters["crash_points_after_checkpoint"] += 1
+            it = pickle.loads(b).get("iteration")
+            if it in seen_it:
+                continue
+            seen_it.add(it)
+            for route in ("bytes", "resume_from_file"):
+                counters["resumes"] += 1
+                counters[f"routes_{route}"] += 1
+                p2 = Probe(t)
+                if route == "resume_from_file":
+                    a2 = Aspire.resume_from_file(path, log_likelihood=p2.log_likelihood, log_prior=p2.log_prior)
+                    src = None
+                else:
+                    a2 = build(p2)
+                    src = b
+                RR = recorded.record(cfg, aspire=a2, probe=p2, rng=np.random.default_rng(4321 + k), with_callback=False, resume_from=src)
+                tag = f"{where} [crash at likelihood call {k}/{n_calls}, checkpoint of iteration {it}/{T}, route {route}]"
+                if RR.exc is not None:
+                    viol.append({"mech": f"C11/resume-raises/{route}", "detail": f"{tag}: {type(RR.exc).__name__}: {str(RR.exc)[:200]}"})
+                    continue
+                dd = recorded.same_runs(R, RR, tol=1e-9)
+                if dd:
+                    viol.append({"mech": "C11/resumed-run-differs/flow-preconditioning", "detail": f"{tag}: {dd[:4]}"})
+                nontrivial.append(f"flowprec|{d}|{b2u}|k{k}|{route}")
+        finally:
+            rm_tmp(path)
+    agg = {}
+    for v in viol:
+        agg.setdefault(v["mech"], dict(v, count=0))["count"] += 1
+    return {"viol": list(agg.values()), "counters": dict(counters), "nontrivial": nontrivial, "sample": {"where": where, "iterations": T, "likelihood_calls": n_calls}}
+
+
 def load_file_payload(path):
     import h5py
 
@@ -132,6 +222,8 @@ def digest_equal(a, b):
 
 
 def run_case(case):
+    if case.get("kind") == "flowprec":
+        return flowprec_case(case)
     from collections import Counter
 
     from aspire import Aspire
